@@ -121,6 +121,7 @@ type Exec struct {
 	inlineMode bool
 	scannerHandle string
 	codeEnv *Env
+	curLoopOrd int
 	usedPoints map[int]bool
 	inlineResult *Val
 }
@@ -130,6 +131,17 @@ type loopCtx struct {
 	modRefs    []string
 	autoSlices []autoSlice
 	autoPaths  []autoPath
+	tracked    []trackedSlice
+	pairs      [][2]int
+}
+
+type trackedSlice struct {
+	name    string
+	sort    string
+	preRef  string
+	headRef string
+	obj     types.Object
+	expr    ast.Expr
 }
 
 type autoPath struct {
@@ -304,6 +316,27 @@ func (x *Exec) heap(st *State, elemSort string) string {
 		name := "H0_" + sortKey(elemSort)
 		x.c.declare(name, fmt.Sprintf("(declare-fun %s () %s)", name, x.c.heapName(elemSort)))
 		x.c.sorts[name] = x.c.heapName(elemSort)
+		// everything reachable when the function starts lives in arrays allocated before it: slices stored in the initial
+		// heap (directly, or as fields of stored structs) are well-formed and point below alloc0
+		if x.alloc0 != "" {
+			el := "(select (select " + name + " r) j)"
+			wf := func(f string) string {
+				return fmt.Sprintf("(and (<= 0 (s.ref %s)) (< (s.ref %s) %s) (<= 0 (s.off %s)) (<= 0 (s.len %s)) (<= (s.len %s) (s.cap %s)))", f, f, x.alloc0, f, f, f, f)
+			}
+			var facts []string
+			if elemSort == sortSlice {
+				facts = append(facts, wf(el))
+			} else if si, ok := x.c.structs[elemSort]; ok {
+				for i, fs := range si.fsorts {
+					if fs == sortSlice {
+						facts = append(facts, wf("("+x.c.fieldAcc(elemSort, si.fields[i])+" "+el+")"))
+					}
+				}
+			}
+			if len(facts) > 0 {
+				x.c.assumes = append(x.c.assumes, fmt.Sprintf("(forall ((r Int) (j Int)) (! %s :pattern (%s)))", and(facts...), el))
+			}
+		}
 		h = name
 		st.heaps[elemSort] = h
 		if x.entry != nil {
